@@ -103,24 +103,32 @@ Section SpanOps.
     - replace (c <=? s_size s) with false by lia. reflexivity.
   Qed.
 
-  (* compile-time forms: first<C>(), last<C>(), subspan<O, C>() *)
-  Theorem sp_first_s_spec : forall s c, sp_valid buf s -> 0 <= c <= s_size s ->
-    sp_elems buf (sp_first_s s c) = sub_range (sp_elems buf s) 0 c
-    /\ s_size (sp_first_s s c) = c /\ s_ext (sp_first_s s c) = Some c /\ sp_within (sp_first_s s c) s.
+  (* compile-time forms: first<C>(), last<C>(), subspan<O, C>() (with the run-time checks of the fixed code) *)
+  Theorem sp_first_s_spec : forall s c, sp_valid buf s -> 0 <= c ->
+    (c <= s_size s ->
+     exists r, sp_first_s s c = Ok r /\ sp_elems buf r = sub_range (sp_elems buf s) 0 c
+               /\ s_size r = c /\ s_ext r = Some c /\ sp_within r s)
+    /\ (s_size s < c -> sp_first_s s c = Contract).
   Proof.
-    intros s c Hv Hc. assert (Hv' := Hv). destruct Hv' as [H0 [H1 H2]].
-    unfold sp_first_s, sp_elems, mk_span, sp_within. cbn [s_off s_size s_ext].
-    replace (s_off s) with (s_off s + 0) at 1 by lia.
-    split; [apply elems_sub; try assumption; lia|]. repeat split; lia.
+    intros s c Hv Hc. assert (Hv' := Hv). destruct Hv' as [H0 [H1 H2]]. unfold sp_first_s. split; intros H.
+    - replace (c <=? s_size s) with true by lia. eexists. split; [reflexivity|].
+      unfold sp_elems, mk_span, sp_within. cbn [s_off s_size s_ext].
+      replace (s_off s) with (s_off s + 0) at 1 by lia.
+      split; [apply elems_sub; try assumption; lia|]. repeat split; lia.
+    - replace (c <=? s_size s) with false by lia. reflexivity.
   Qed.
 
-  Theorem sp_last_s_spec : forall s c, sp_valid buf s -> 0 <= c <= s_size s ->
-    sp_elems buf (sp_last_s s c) = sub_range (sp_elems buf s) (s_size s - c) c
-    /\ s_size (sp_last_s s c) = c /\ s_ext (sp_last_s s c) = Some c /\ sp_within (sp_last_s s c) s.
+  Theorem sp_last_s_spec : forall s c, sp_valid buf s -> 0 <= c ->
+    (c <= s_size s ->
+     exists r, sp_last_s s c = Ok r /\ sp_elems buf r = sub_range (sp_elems buf s) (s_size s - c) c
+               /\ s_size r = c /\ s_ext r = Some c /\ sp_within r s)
+    /\ (s_size s < c -> sp_last_s s c = Contract).
   Proof.
-    intros s c Hv Hc. assert (Hv' := Hv). destruct Hv' as [H0 [H1 H2]].
-    unfold sp_last_s, sp_elems, mk_span, sp_within. cbn [s_off s_size s_ext]. rewrite szw_id by lia.
-    split; [apply elems_sub; try assumption; lia|]. repeat split; lia.
+    intros s c Hv Hc. assert (Hv' := Hv). destruct Hv' as [H0 [H1 H2]]. unfold sp_last_s. split; intros H.
+    - replace (c <=? s_size s) with true by lia. rewrite szw_id by lia. eexists. split; [reflexivity|].
+      unfold sp_elems, mk_span, sp_within. cbn [s_off s_size s_ext].
+      split; [apply elems_sub; try assumption; lia|]. repeat split; lia.
+    - replace (c <=? s_size s) with false by lia. reflexivity.
   Qed.
 
   (* the static extent is consistent with the size the span reports *)
@@ -129,23 +137,44 @@ Section SpanOps.
   Theorem sp_sub_s_spec : forall s o c, sp_valid buf s -> sp_consistent s -> 0 <= o <= s_size s ->
     match c with Some n => 0 <= n <= s_size s - o | None => True end ->
     let cnt := match c with Some n => n | None => s_size s - o end in
-    let r := sp_sub_s s o c in
-    sp_elems buf r = sub_range (sp_elems buf s) o cnt /\ s_size r = cnt /\ sp_within r s
+    exists r, sp_sub_s s o c = Ok r
+    /\ sp_elems buf r = sub_range (sp_elems buf s) o cnt /\ s_size r = cnt /\ sp_within r s
     /\ s_ext r = match c with
                  | Some n => Some n
                  | None => match s_ext s with Some x => Some (x - o) | None => None end
                  end
     /\ sp_consistent r.
   Proof.
-    intros s o c Hv Hcons Ho Hc cnt r. assert (Hv' := Hv). destruct Hv' as [H0 [H1 H2]].
-    subst r cnt. unfold sp_sub_s, sp_elems, mk_span, sp_within, subspan_extent, sp_consistent in *.
-    destruct c as [n|]; cbn [s_off s_size s_ext].
-    - split; [apply elems_sub; try assumption; lia|]. repeat split; lia.
-    - destruct (s_ext s) as [x|] eqn:Hx; cbn [s_off s_size s_ext].
+    intros s o c Hv Hcons Ho Hc cnt. assert (Hv' := Hv). destruct Hv' as [H0 [H1 H2]].
+    subst cnt. unfold sp_sub_s. replace (o <=? s_size s) with true by lia. cbn [negb].
+    destruct c as [n|].
+    - rewrite (szw_id (s_size s - o)) by lia. replace (n <=? s_size s - o) with true by lia.
+      eexists. split; [reflexivity|].
+      unfold sp_elems, mk_span, sp_within, subspan_extent, sp_consistent in *. cbn [s_off s_size s_ext].
+      split; [apply elems_sub; try assumption; lia|]. repeat split; lia.
+    - eexists. split; [reflexivity|].
+      unfold sp_elems, mk_span, sp_within, subspan_extent, sp_consistent in *.
+      destruct (s_ext s) as [x|] eqn:Hx; cbn [s_off s_size s_ext].
       + subst x. rewrite szw_id by lia.
         split; [apply elems_sub; try assumption; lia|]. repeat split; lia.
       + rewrite szw_id by lia.
         split; [apply elems_sub; try assumption; lia|]. repeat split; lia.
+  Qed.
+
+  (* the run-time checks of subspan<O, C>() fire exactly outside [span.sub]'s domain; on a parent of static
+     extent (where the static_asserts already guarantee O <= Extent and C <= Extent - O) they never fire *)
+  Theorem sp_sub_s_contract : forall s o c, 0 <= s_size s < 18446744073709551616 -> 0 <= o ->
+    (sp_sub_s s o c = Contract <->
+     ~ (o <= s_size s /\ match c with Some n => n <= s_size s - o | None => True end)).
+  Proof.
+    intros s o c Hs Ho. unfold sp_sub_s.
+    destruct (o <=? s_size s) eqn:Eo; cbn [negb].
+    - apply Z.leb_le in Eo. rewrite (szw_id (s_size s - o)) by lia. destruct c as [n|].
+      + destruct (n <=? s_size s - o) eqn:En.
+        * apply Z.leb_le in En. split; [discriminate | intros H; exfalso; apply H; split; assumption].
+        * apply Z.leb_gt in En. split; [intros _ [_ H]; lia | reflexivity].
+      + split; [discriminate | intros H; exfalso; apply H; split; [assumption | exact I]].
+    - apply Z.leb_gt in Eo. split; [intros _ [H _]; lia | reflexivity].
   Qed.
 
   (* operator[]: in-range index -> the idx-th element's address, otherwise the precondition fires *)
@@ -155,5 +184,21 @@ Section SpanOps.
     intros s i Hi. unfold sp_index. split; intros H.
     - replace (i <? s_size s) with true by lia. reflexivity.
     - replace (i <? s_size s) with false by lia. reflexivity.
+  Qed.
+
+  (* front() / back(): the first / last element of the window (operator[] at 0 / size()-1), precondition exactly
+     for the empty span *)
+  Theorem sp_front_back_spec : forall s, 0 <= s_size s ->
+    (sp_front s = Contract <-> s_size s = 0) /\ (sp_back s = Contract <-> s_size s = 0)
+    /\ (0 < s_size s -> sp_front s = sp_index s 0 /\ sp_back s = sp_index s (s_size s - 1)
+                        /\ sp_front s = Ok (s_off s) /\ sp_back s = Ok (s_off s + s_size s - 1)).
+  Proof.
+    intros s Hs. unfold sp_front, sp_back, sp_index.
+    destruct (s_size s =? 0) eqn:E.
+    - apply Z.eqb_eq in E. repeat split; intros; try assumption; try reflexivity; lia.
+    - apply Z.eqb_neq in E. split; [split; [discriminate | intros; lia]|].
+      split; [split; [discriminate | intros; lia]|]. intros Hp.
+      replace (0 <? s_size s) with true by lia. replace (s_size s - 1 <? s_size s) with true by lia.
+      repeat split; f_equal; lia.
   Qed.
 End SpanOps.
